@@ -642,6 +642,12 @@ def run(ctx):
     _rank_and_shape_cells(ctx, reqs, pending)
     _decode_routes(ctx, reqs, pending)
     _frames(ctx, reqs, pending)
+    _compare_all(ctx, reqs, pending)
+
+
+def _compare_all(ctx, reqs, pending):
+    if not reqs:
+        return
     answers = ctx.model(reqs)
     if answers is None:
         return
@@ -672,18 +678,34 @@ def run(ctx):
 
 
 def replay(ctx, case):
-    """Re-run one stored request on the implementation -> failure detail or None."""
+    """Re-run one stored request on the implementation -> the failures of that request, or None when it passes on the
+    current tree.  Failures that belong to an OPEN known finding do not count, unless the case is the stored witness of a
+    finding (`"witness": true`)."""
     import hd_env  # noqa: F401
     import warnings
+    from framework import load_findings
     warnings.simplefilter('ignore')
-    if 'data' not in case:
-        return None
     sub = type(ctx)(ctx.prop, ctx.tier, ctx.seed, 1, ctx.driver)
-    a = _array_of_case(case)
-    _check(sub, case.get('kind', 'frame'), case['ts'], case['dtype'], case['ba'], case['bs'], case['samples'], case['pi'],
-           case['pr'], case['pc'], a, [], [], layout=case.get('layout', 'c'), must_accept=case.get('kind') == 'must',
-           spell=case.get('spell', 'rrr'))
-    return sub.failures[:3] or None
+    # implementation side only: a replay does not regenerate / rebuild the model, which may stem from another tree
+    sub.model_available = False
+    reqs, pending = [], []
+    if case.get('kind') == 'rank-shape':
+        _rank_and_shape_cells(sub, reqs, pending)
+        keep = lambda c: c.get('kind') == 'rank-shape' and c.get('seed_index') == case.get('seed_index')   # noqa: E731
+    elif 'data' in case:
+        a = _array_of_case(case)
+        _check(sub, case.get('kind', 'frame'), case['ts'], case['dtype'], case['ba'], case['bs'], case['samples'], case['pi'],
+               case['pr'], case['pc'], a, reqs, pending, layout=case.get('layout', 'c'), must_accept=case.get('kind') == 'must',
+               spell=case.get('spell', 'rrr'))
+        keep = lambda c: True   # noqa: E731
+    else:
+        return None
+    _compare_all(sub, reqs, pending)
+    open_findings = [] if case.get('witness') else \
+        [f for f in load_findings() if f.get('property') == 'C07' and f.get('status') == 'open']
+    hits = [f for f in sub.failures if keep(f['case']) and attribute(f, open_findings) is None]
+    hits += [d for d in sub.disagreements if keep(d['case'])]
+    return hits[:3] or None
 
 
 def attribute(failure, open_findings):
